@@ -431,7 +431,6 @@ func (it *Interp) deepEqual(a, b Val) *Term {
 	return nil
 }
 
-
 // leading returns the known leading bytes of a string value (-1 for a symbolic byte), whether the whole string is
 // covered, and whether anything is known at all.
 func (it *Interp) leading(s *StrV) ([]int, bool, bool) {
